@@ -214,6 +214,32 @@ def fromGeoJSON (ty : String) (c : Tree F) : Except Err (Geom F) :=
       else .error .invalid
   else .error .unsupported
 
+/-! ### Error values (geojson.go): payload and `Error()` text of the two error types -/
+
+/-- `InvalidGeometryError.Error()` -/
+def invalidGeometryErrorText : String := "geojson: invalid geometry"
+/-- `UnsupportedGeometryError.Error()` with the payload `Type` -/
+def unsupportedGeometryErrorText (ty : String) : String := "geojson: unsupported geometry type " ++ ty
+
+/-- `reflect.TypeOf(g).String()` of the Go values the model's unsupported constructors stand for -/
+def goTypeName : Geom F → String
+  | .collection _ => "geom.GeometryCollection"
+  | .bounds _ _ => "*geom.Bounds"
+  | _ => ""
+
+/-- `err.Error()` of the geojson error `ToGeoJSON`/`Encode` return (payload: the Go type name); `none`: no geojson error -/
+def encodeErrorText (g : Geom F) : Option String :=
+  match toGeoJSON g with
+  | .error .unsupported => some (unsupportedGeometryErrorText (goTypeName g))
+  | _ => none
+
+/-- `err.Error()` of the geojson error `FromGeoJSON` returns (payload of the unsupported case: `g.Type`) -/
+def decodeErrorText (ty : String) (c : Tree F) : Option String :=
+  match fromGeoJSON ty c with
+  | .error .invalid => some invalidGeometryErrorText
+  | .error .unsupported => some (unsupportedGeometryErrorText ty)
+  | _ => none
+
 /-- `FromGeoJSON` on a possibly nil `*Geometry`: `g.Type` dereferences nil, the runtime error is recovered
 and, being an `error`, returned -/
 def fromGeoJSONPtr : Option (String × Tree F) → Except Err (Geom F)
